@@ -75,6 +75,9 @@ func TestC01(t *testing.T) {
 	p = c.rec.NewPart("tokens_exhaustive", "every space-joined sequence of 1..4 token atoms (whitelist and folding index expressions)", false, true, "")
 	c.EnumSeq(p, tokenAtoms, " ", 1, 4, judge)
 
+	p = c.rec.NewPart("five_token_exhaustive", "every space-joined sequence of exactly 6 atoms over the five-token-special alphabet (look-ahead token handling of the folder)", false, true, "")
+	c.EnumSeq(p, fiveAtoms, " ", 6, pick(6, 7), judge)
+
 	// truncations: every construct cut at every offset, after 12 contexts, short and long bodies
 	var tr []string
 	tr = append(tr, sqlTruncationInputs()...)
@@ -96,10 +99,10 @@ func TestC01(t *testing.T) {
 
 	p = c.rec.NewPart("rapid_fragments", "rapid over the SQL fragment grammar", true, false, "")
 	g := gen.SQLInput()
-	c.Rapid(p, 8, pick(25000, 600000), func(rt *rapid.T, sh int) ev.Case { return c01Case(g.Draw(rt, "in")) })
+	c.Rapid(p, 8, pick(60000, 800000), func(rt *rapid.T, sh int) ev.Case { return c01Case(g.Draw(rt, "in")) })
 	p = c.rec.NewPart("rapid_bytes", "rapid: arbitrary byte strings up to 48 bytes", true, false, "")
 	bg := gen.Bytes(48)
-	c.Rapid(p, 4, pick(25000, 600000), func(rt *rapid.T, sh int) ev.Case { return c01Case(bg.Draw(rt, "in")) })
+	c.Rapid(p, 4, pick(60000, 800000), func(rt *rapid.T, sh int) ev.Case { return c01Case(bg.Draw(rt, "in")) })
 	p = c.rec.NewPart("rapid_long_inputs", "rapid: fragment repeated to 4..64 kB plus a hostile tail", true, false, "")
 	c.Rapid(p, 4, pick(150, 3000), func(rt *rapid.T, sh int) ev.Case {
 		u := rapid.SampledFrom(gen.FragSQL).Draw(rt, "unit") + rapid.SampledFrom(gen.FragSQL).Draw(rt, "unit2")
